@@ -2,6 +2,7 @@
 from __future__ import annotations
 
 import json
+import os
 import shutil
 from concurrent.futures import ProcessPoolExecutor
 from typing import Any, Dict, List
@@ -53,16 +54,35 @@ def keymap(scn):
     return km
 
 
+PHASED = {
+    # a message that was never received, the package's reset, then new sockets with the same keys
+    "reset-then-reuse": {"phases": [[ep("A", "B", 0, False, ["connect", None], ["send", "old"]), ep("B", "A", 0, False, ["connect", None])],
+                                    [ep("A", "B", 0, False, ["connect", None], ["send", "new"]), ep("B", "A", 0, False, ["connect", None], ["recv", None], ["recvnb", None])]]},
+}
+
+
 def _explore(item):
+    import faulthandler
+    import signal
+    faulthandler.register(signal.SIGUSR1, all_threads=True)
     from . import sched
     name, scn, depth, nodes = item
+    if os.environ.get("VERIF_DEBUG"):
+        open(f"/tmp/c18_progress_{os.getpid()}", "a").write(f"start {name}\n")
     paths, st = sched.explore(scn, max_depth=depth, max_nodes=nodes)
+    if os.environ.get("VERIF_DEBUG"):
+        open(f"/tmp/c18_progress_{os.getpid()}", "a").write(f"end {name} {st}\n")
+    if isinstance(scn, dict):
+        scn = scn["phases"][0] + scn["phases"][1]      # thread ids 1..4 in this order
     km = keymap(scn)
     rows = []
     for p in paths:
         evs = []
         for e in p["history"]:
             if e["ev"] == "lost":
+                continue
+            if e["ev"] == "reset":
+                evs.append({"t": 0, "ev": "reset", "op": "", "arg": "", "res": "", "key": 0, "msg": ""})
                 continue
             x = {"t": e["t"], "ev": e["ev"], "op": e.get("op") or "", "arg": e.get("arg") or "", "res": e.get("res") or "",
                  "key": km.get(tuple(e["key"]), 0) if e.get("key") else 0, "msg": e.get("msg") or ""}
@@ -125,8 +145,12 @@ def run(prop: str, tier: str) -> int:
                 V.add("model-violates-" + inv, {"scenario": name, "callbacks_first": cbf},
                       f"Hub.tla (statement order of the working tree: callbacks {'before' if cbf else 'after'} becoming visible) violates {inv} in scenario {name}")
         depth, nodes = (120, 60000) if tier == "quick" else (160, 400000)
-        with ProcessPoolExecutor(max_workers=min(C.ncpu(), len(S))) as pool:
-            res = list(pool.map(_explore, [(n, s, depth, nodes) for n, s in S.items()]))
+        jobs = [(n, s, depth, nodes) for n, s in S.items()] + [(n, s, depth, 400) for n, s in PHASED.items()]     # (280 nodes suffice when reset works; without it no two runs are alike)
+        # (fresh interpreters, not forks of this multi-threaded process: a forked child can inherit a lock that a thread of
+        #  the parent held at the moment of the fork)
+        import multiprocessing
+        with ProcessPoolExecutor(max_workers=min(C.ncpu(), len(jobs)), mp_context=multiprocessing.get_context("spawn")) as pool:
+            res = list(pool.map(_explore, jobs))
         rows, stats = [], {}
         for name, rs, st in res:
             stats[name] = st
@@ -165,6 +189,8 @@ def run(prop: str, tier: str) -> int:
         # outcome-level conformance between the statement-level specification and the real threads
         km_all = {n: keymap(s_) for n, s_ in S.items()}
         for name, rs, st in res:
+            if name not in mc:
+                continue            # (a phased scenario on the package's own hub has no statement-level model)
             if st["truncated"] or mc[name][0].violated:
                 continue
             real = set()
